@@ -45,6 +45,12 @@ var compositeConsts = []string{`[{"a":1}]`, `{"a":1}`, `[1,"a"]`, `[]`, `{}`, `{
 func constValue(t *rapid.T, rootish bool) any {
 	if rapid.IntRange(0, 2).Draw(t, "cc") == 0 {
 		v, _ := decode([]byte(rapid.SampledFrom(compositeConsts).Draw(t, "cconst")))
+		if excl && !rootish && underProps == 0 && containsObject(v) {
+			// F70 family: below items/additionalProperties/combinators of the root schema the closed
+			// structs of an object-bearing const end up in what is embedded at file level, where
+			// closedness is not enforced; such values are generated at the root and below properties
+			return scalarConst(t)
+		}
 		if _, obj := v.(map[string]any); obj && rootish && excl {
 			// known finding F70: an object-valued const/enum that applies to the root instance becomes a
 			// closed struct embedded at file level, whose closedness is not enforced
@@ -101,6 +107,9 @@ func bound(t *rapid.T, small []any, label string) any {
 	}
 	return rapid.SampledFrom(small).Draw(t, label)
 }
+
+// underProps counts the properties keywords above the schema being generated.
+var underProps int
 
 var typeSets = [][]string{{"null"}, {"boolean"}, {"integer"}, {"number"}, {"string"}, {"array"}, {"object"}, {"string", "number"}, {"number", "null"}, {"boolean", "object"}, {"integer", "string"}, {"null", "array"}, {"string", "boolean"}}
 
@@ -178,9 +187,11 @@ func schemaR(t *rapid.T, depth int, defs []string, rootish bool) any {
 			s["required"] = []any{rapid.SampledFrom(propNames).Draw(t, "req")}
 		case 12:
 			p := J{}
+			underProps++
 			for j := 0; j < rapid.IntRange(1, 2).Draw(t, "np"); j++ {
 				p[rapid.SampledFrom(propNames).Draw(t, "pn")] = schema(t, depth-1, defs)
 			}
+			underProps--
 			s["properties"] = p
 		case 13:
 			if rapid.Bool().Draw(t, "apb") && !(excl && rootish) {
@@ -206,7 +217,18 @@ func schemaR(t *rapid.T, depth int, defs []string, rootish bool) any {
 				s[comb] = []any{schemaR(t, depth-1, defs, rootish), schemaR(t, depth-1, defs, rootish)}
 			}
 		case 19:
-			s["not"] = schemaR(t, depth-1, defs, rootish)
+			ns := schemaR(t, depth-1, defs, rootish)
+			if m, ok := ns.(J); ok && excl {
+				// known finding F85: the negation of a schema that the importer recognises as unsatisfiable
+				// (const/enum contradicting type) becomes matchN(0, [error("disallowed")]), which rejects
+				// every instance instead of accepting every instance
+				_, c1 := m["const"]
+				_, c2 := m["enum"]
+				if c1 || c2 {
+					delete(m, "type")
+				}
+			}
+			s["not"] = ns
 		case 20:
 			cs := schema(t, depth-1, defs)
 			if excl {
